@@ -330,6 +330,18 @@ def check_plain_when(chk, rule, prog, cache, wired, CS):
     chk.floor(rule, "paths of the chunk callbacks that append the chunk as an ordinary item", n, 2)
 
 
+def check_builder_preconditions(chk, rule, CS, wired):
+    """every call the builders (the callbacks wired into cbor_load, the append routine, cbor_load itself) make to an operation with
+    an asserted type / flavour / width precondition establishes it on the path: a chunk is added only to an indefinite string of its
+    kind and is itself definite, a pair only to a map, ..."""
+    subjects = sorted({v for v in wired.values() if v}) + ["_cbor_builder_append", "cbor_load"]
+    res = CS.check(subjects)
+    for fn, callee, atom, ok, where, detail, pa in res:
+        chk.ob(rule, "%s: %s needs %s" % (fn, callee, atom.get("text", "")), ok, where, fn=fn,
+               key="%s:%s:%s" % (fn, callee, atom.get("text", "")), detail=detail, path=pa.block_lines() if not ok else None)
+    chk.floor(rule, "precondition obligations in the builders", len(res), 25)
+
+
 def check_break(chk, rule, prog, cache, CS, PA, bfname):
     """the break callback: pops and appends only when the stack is non-empty, the top is an indefinite item and, for a map,
     the count is even; otherwise it raises the syntax error; _cbor_is_indefinite is true exactly for indefinite items"""
@@ -570,12 +582,7 @@ def run(ctx, chk):
     check_plain_when(chk, "C02.attach", prog, cache, wired, CSj)
     # 4. typestate at call sites (builders and append)
     CS = typestate.CallSites(prog, eff, cache, H, PA)
-    subjects = sorted({v for v in wired.values() if v}) + ["_cbor_builder_append", "cbor_load"]
-    res = CS.check(subjects)
-    for fn, callee, atom, ok, where, detail, pa in res:
-        chk.ob("C02.attach", "%s: %s needs %s" % (fn, callee, atom.get("text", "")), ok, where, fn=fn,
-               key="%s:%s:%s" % (fn, callee, atom.get("text", "")), detail=detail, path=pa.block_lines() if not ok else None)
-    chk.floor("C02.attach", "precondition obligations in the builders", len(res), 25)
+    check_builder_preconditions(chk, "C02.attach", CS, wired)
     # default arm
     app = prog.fn("_cbor_builder_append")
     T = prog.enum("cbor_type")
